@@ -33,13 +33,13 @@ ALLOW = {
         'ParamsIter invariant: index < len <= 32 under the `index >= len -> return None` guard (C02|params end-guard); subparams[index] was written by push/extend as the size of the group that starts at index, so index + size <= len <= 32',
     "<anstyle_parse::params::ParamsIter<'a>_as_core::iter::traits::iterator::Iterator>::size_hint|Overflow(Sub):([anstyle_parse::params::Params::len]($self.params)_Sub_$self.index)":
         'index only advances by recorded group sizes, which end at len at most, so len - index >= 0',
-    'anstyle_parse::Parser::<C>::intermediates|call:index:$self.intermediates[RangeTo{end:_$self.intermediate_idx}]':
+    'anstyle_parse::Parser::<C>::intermediates|call:index:$self.intermediates[Range{start:_0,_end:_$self.intermediate_idx}]':
         'intermediate_idx <= MAX_INTERMEDIATES = 2 = array length: it is only incremented under `intermediate_idx != MAX_INTERMEDIATES` and reset to 0 (C02|guards collect, C02|reset)',
     'anstyle_parse::Parser::<C>::osc_dispatch|BoundsCheck:$self.osc_params[$i]':
         'i enumerates slices.iter_mut().take(osc_num_params) over an array of 16, so i < 16 = osc_params.len() (C02|osc init-loop-bound)',
     'anstyle_parse::Parser::<C>::osc_dispatch|call:index:$self.osc_raw[Range{start:_$indices.0,_end:_$indices.1}]':
         'recorded (begin, end) pairs are osc_raw.len() values taken in increasing order with begin = previous end, and osc_raw only grows between OscStart clears, so begin <= end <= osc_raw.len() (C02|guards osc stores)',
-    'anstyle_parse::Parser::<C>::osc_dispatch|call:index:$slices[RangeTo{end:_$self.osc_num_params}]':
+    'anstyle_parse::Parser::<C>::osc_dispatch|call:index:$slices[Range{start:_0,_end:_$self.osc_num_params}]':
         'num_params = osc_num_params <= MAX_OSC_PARAMS = 16 = slices.len(): incremented only when != MAX_OSC_PARAMS (C02|guards)',
     'anstyle_parse::Parser::<C>::perform_action|BoundsCheck:$self.osc_params[($param_idx_Sub_1)]':
         'param_idx = osc_num_params in 0..=16; these sites are in match arms after `MAX_OSC_PARAMS => ..` (and `0 => ..` for the `- 1`), so param_idx is in 1..=15 resp. 0..=15 < 16 and the increment stays <= 16 (C02|guards osc_params-store / osc_num_params-inc)',
@@ -75,7 +75,7 @@ ALLOW = {
         'debug_assert_ne!(choice, Auto): choice() never returns Auto when the global choice is Auto (C09|chain truth table: every Auto row yields Always or Never)',
     'anstream::strip::write|call:index:$printable[RangeFrom{start:_$written}]':
         'written is the count the inner io::Write returned for `printable`; the io::Write contract bounds it by printable.len() (trust boundary: the inner writer, not the input)',
-    'anstream::strip::write|call:index:$buf[RangeTo{end:_$offset}]':
+    'anstream::strip::write|call:index:$buf[Range{start:_0,_end:_$offset}]':
         'offset = offset_to(buf, &printable[written..]) where printable is a sub-slice of buf (C01|S5 slices are pieces of the input), so offset <= buf.len()',
     "anstream::strip::offset_to|call:panic_fmt:[core::panicking::panic_fmt]([core::fmt::Arguments::<'a>::from_str]('`Offset::offset_to`_only_accepts_slices_o":
         'subslice is a sub-slice of total at both call sites (C06|W3), so the debug_assert holds and the pointer difference is non-negative',
@@ -99,7 +99,7 @@ ALLOW = {
         'capacity argument: buffer/len are written only by write_str/write_code (C04|allowlist links), which are called only from the 8 builder chains whose literal lengths + 3 bytes per code total <= DISPLAY_BUFFER_CAPACITY = 19 (C05|templates capacity-covers-longest-chain)',
     'anstyle::color::DisplayBuffer::write_code|Overflow(Add):$self.len_AddAssign=_1#2':
         'capacity argument: buffer/len are written only by write_str/write_code (C04|allowlist links), which are called only from the 8 builder chains whose literal lengths + 3 bytes per code total <= DISPLAY_BUFFER_CAPACITY = 19 (C05|templates capacity-covers-longest-chain)',
-    'anstyle::color::DisplayBuffer::as_str|call:index:$self.buffer[Range{start:_0,_end:_$self.len}]':
+    'anstyle::color::DisplayBuffer::*|call:index:$self.buffer[Range{start:_0,_end:_$self.len}]':
         'len <= 19 = buffer.len() by the same capacity argument',
     'anstyle_git::parse_color|call:index:$hex[Range{start:_0,_end:_($l_Div_3)}]':
         'hex consists of ASCII hex digits only (C04|str-slice / C11|hex-guard) so byte offsets are char boundaries, hex.len() is 3 or 6 and l = len/3, so 3*l = len',
